@@ -313,27 +313,39 @@ def Order.validate (o : Order) : Bool :=
 /-- `placeHoldOnOrder` -/
 def placeHoldOnOrder (s : State) (o : Order) : Option State := addHold s o.owner (holdAmt o)
 
-/-- `CreateAskOrder` / `CreateBidOrder`. `o.id` is ignored (assigned here). -/
-def createOrder (s : State) (o : Order) (creationFee : Option Coin) : Except Err (State × Nat) :=
+/-- the fee checks of `CreateAskOrder` (`validateCreateAskFees`, `validateAskPrice`) and
+`CreateBidOrder` (`validateCreateBidFees`) -/
+def orderFeesOk (mk : Market) (o : Order) (creationFee : Option Coin) : Bool :=
+  if o.isAsk then
+    validateFlatFee mk.createAskFlat creationFee && validateFlatFee mk.sellerFlat o.fees.head? &&
+      validateAskPrice mk o.price o.fees.head?
+  else validateFlatFee mk.createBidFlat creationFee && validateBuyerSettlementFee mk o.fees
+
+/-- everything `Create*Order` checks before funds move -/
+def admitOrder (s : State) (o : Order) (creationFee : Option Coin) : Except Err Unit :=
   if !o.validate then .error .invalid
   else match marketAcceptingOrders s o.market with
     | none => .error .market
-    | some mk =>
-      let feesOk :=
-        if o.isAsk then
-          validateFlatFee mk.createAskFlat creationFee && validateFlatFee mk.sellerFlat o.fees.head? &&
-            validateAskPrice mk o.price o.fees.head?
-        else validateFlatFee mk.createBidFlat creationFee && validateBuyerSettlementFee mk o.fees
-      if !feesOk then .error .fee
-      else match collectFee s o.market o.owner creationFee with
-        | none => .error .funds
-        | some s1 =>
-          let id := s1.lastOrderId + 1
-          let o' := { o with id := id }
-          let s2 := { s1 with lastOrderId := id, orders := setOrder s1.orders o' }
-          match placeHoldOnOrder s2 o' with
-          | none => .error .funds
-          | some s3 => .ok (s3, id)
+    | some mk => if orderFeesOk mk o creationFee then .ok () else .error .fee
+
+/-- the rest of `Create*Order`: collect the creation fee, assign the next id, store the order,
+place the hold. -/
+def storeOrder (s : State) (o : Order) (creationFee : Option Coin) : Except Err (State × Nat) :=
+  match collectFee s o.market o.owner creationFee with
+  | none => .error .funds
+  | some s1 =>
+    match placeHoldOnOrder
+        { s1 with lastOrderId := s1.lastOrderId + 1,
+                  orders := setOrder s1.orders { o with id := s1.lastOrderId + 1 } }
+        { o with id := s1.lastOrderId + 1 } with
+    | none => .error .funds
+    | some s3 => .ok (s3, s1.lastOrderId + 1)
+
+/-- `CreateAskOrder` / `CreateBidOrder`. `o.id` is ignored (assigned here). -/
+def createOrder (s : State) (o : Order) (creationFee : Option Coin) : Except Err (State × Nat) :=
+  match admitOrder s o creationFee with
+  | .error e => .error e
+  | .ok _ => storeOrder s o creationFee
 
 def isAdmin (who : Addr) : Bool := who = "ADM" || who = "GOV"
 
@@ -601,13 +613,18 @@ def addCommitmentCore (s : State) (m : Nat) (a : Addr) (amount : Coins) : Except
     | some s1 =>
       .ok { s1 with commitments := setCommitment s1.commitments m a (norm (getCommitment s1.commitments m a ++ amount)) }
 
+/-- create-commitment flat fee options of a market (none for an unknown market) -/
+def commitFeeOpts (s : State) (m : Nat) : Coins :=
+  match getMarket s m with
+  | some mk => mk.createCommitFlat
+  | none => []
+
 /-- `MsgCommitFundsRequest.ValidateBasic` + `CommitFunds`. -/
 def commitFunds (s : State) (a : Addr) (m : Nat) (amount : Coins) (creationFee : Option Coin) : Except Err State :=
   if m = 0 ∨ allZero amount ∨ !isValidCoins amount then .error .invalid
   else
     -- the creation fee is validated and collected before the market is looked at
-    let opts := match getMarket s m with | some mk => mk.createCommitFlat | none => []
-    if !validateFlatFee opts creationFee then .error .fee
+    if !validateFlatFee (commitFeeOpts s m) creationFee then .error .fee
     else match collectFee s m a creationFee with
       | none => .error .funds
       | some s1 =>
@@ -805,13 +822,24 @@ def rejectPayments (s : State) (target : Addr) (sources : List Addr) : Except Er
     | none => .error .hold
     | some s1 => .ok s1
 
+/-- the lookups of `CancelPayments`: every external id must name a payment of the source -/
+def lookupPayments (ps : List Payment) (src : Addr) : List String → Option (List Payment)
+  | [] => some []
+  | e :: rest =>
+    match getPayment ps src e with
+    | none => none
+    | some p =>
+      match lookupPayments ps src rest with
+      | none => none
+      | some l => some (p :: l)
+
 /-- `CancelPayments` -/
 def cancelPayments (s : State) (src : Addr) (exts : List String) : Except Err State :=
   if exts.isEmpty ∨ !exts.Nodup then .error .invalid
-  else
-    let found := exts.map fun e => getPayment s.payments src e
-    if found.any (·.isNone) then .error .notfound
-    else match deletePaymentsAndReleaseHolds s (found.filterMap id) with
+  else match lookupPayments s.payments src exts with
+    | none => .error .notfound
+    | some found =>
+      match deletePaymentsAndReleaseHolds s found with
       | none => .error .hold
       | some s1 => .ok s1
 
